@@ -9,6 +9,10 @@ CHECKS = {
           "Every (expression, binding) pair of the bounded fragment is parsed and evaluated by the implementation and compared structurally with an independent reference interpreter; each is also evaluated in a scope with unrelated extra entries and stacked contexts and must give the same value. Deviations that are recorded known findings are reproduced by the reference's deviation mode and attributed to their tag; anything else is a violation.",
           "Trusts harness/vh/src/ref_feel.rs as the FEEL semantics of the fragment; cases the DMN text leaves open are executed but not compared (counted). Operand values outside the alphabets and nesting beyond the bound are not covered.",
           "DESIGN.md §4 C01"),
+  "C07": ("exhaustive enumeration of every exponent -6176..6111 x coefficient lengths x coefficient patterns x both signs (and zeros at every exponent) with a digit-string exactness oracle",
+          "Each value is built with FeelNumber::from_str from scientific text; its Display and JSON renderings must be plain decimal / a JSON number denoting exactly coefficient x 10^exponent (decided by digit-string arithmetic), reading the text back must give an equal number, the xsd input conversions and the FEEL literal with the same digits must give that value.",
+          "Quick covers coefficient lengths {1,2,3,7,16,17,33,34}, thorough all 1..34; not every coefficient. Results of arithmetic are pushed through the same checks by C02.",
+          "DESIGN.md §4 C07"),
   "C09": ("exhaustive enumeration of all ordered pairs and triples of a 46-value alphabet covering every value kind, and of all pairs and triples of dense number / string / date lattices; algebraic laws checked between observations of the real evaluator",
           "For every ordered pair: and/or truth tables, symmetry of =, != as negation of =, mirror laws of < > <= >=; for pairs of one ordered kind trichotomy and <= as (< or =); for every ordered triple of one ordered kind agreement of between, the four interval forms and the conjunction of comparisons. The universes are enumerated completely.",
           "The laws relate two observations of the implementation, so no reference model is trusted (only the and/or truth tables). Values outside the alphabets and lattices are not covered.",
